@@ -171,8 +171,6 @@ func checkC16(c C16Case, o *Obs) error {
 	if !slices.Equal(starts, c.Starts) || !slices.Equal(ends, c.Ends) {
 		return fmt.Errorf("NewIndex modified its arguments")
 	}
-	// Mutating the argument slices after construction must not matter either (index is read-only
-	// and self-contained as far as At is concerned).
 	qs := queryPoints(c)
 	o.Count("queries", 2*len(qs))
 	var returned [][]int
